@@ -242,6 +242,25 @@ def Enc.get : Enc → Nat → Option Nat
   | .u32 b o, i => o[i]?.map (b + ·)
   | .u64 v, i => v[i]?
 
+/-- encoded_array.rs `EncodedU64Array::binary_search(val).ok()`: `checked_sub(base)`, the range check against the offset
+    width, the narrowing cast (`as u16` / `as u32`, i.e. modulo 2^16 / 2^32) and the search among the offsets.
+    `slice::binary_search` of the standard library is taken as "the index of the value" (it is only applied to sorted
+    duplicate-free offsets). `none` = `Err(_)`. -/
+def Enc.binarySearch : Enc → Nat → Option Nat
+  | .u16 b o, v => if v < b then none else if v - b > 65535 then none else o.idxOf? ((v - b) % 65536)
+  | .u32 b o, v => if v < b then none else if v - b > 4294967295 then none else o.idxOf? ((v - b) % 4294967296)
+  | .u64 vals, v => vals.idxOf? v
+
+/-- an array of the given offset width (16 / 32 / 64) holding `vals`, as the wire format stores it -/
+def Enc.withWidth (w : Nat) (vals : List Nat) : Option Enc :=
+  match listMin vals, listMax vals with
+  | some mn, some mx =>
+    if w = 16 then (if mx - mn ≤ 65535 then some (.u16 mn (vals.map (· - mn))) else none)
+    else if w = 32 then (if mx - mn ≤ 4294967295 then some (.u32 mn (vals.map (· - mn))) else none)
+    else if w = 64 then some (.u64 vals)
+    else none
+  | _, _ => if w = 64 then some (.u64 []) else none
+
 /-- the offsets fit their width -/
 def Enc.Fits : Enc → Prop
   | .u16 _ o => ∀ x ∈ o, x ≤ 65535
